@@ -3,7 +3,8 @@ From Coq Require Import List NArith Arith Bool.
 Import ListNotations.
 From Chiri Require Import Base.Bytes Base.Res Model.Finders Model.Format Spec.Ranges Spec.Lines
      Model.TagParser Model.Markers Model.Clean Spec.Rename Spec.Simulation
-     Proofs.FormatterProofs Proofs.SeamProofs Proofs.RenameProofs Proofs.BlockDoc.
+     Proofs.FormatterProofs Proofs.SeamProofs Proofs.RenameProofs Proofs.BlockDoc
+     Proofs.WellNested Proofs.AstCollect Proofs.MultiBlock.
 
 (** After a block of whole lines has been deleted, what is left of it is the indentation of the
     opening tag's line (blanks, [ls, p)) and the line break that ended the closing tag's line (at p).
@@ -155,11 +156,86 @@ Print Assumptions C13_single_block_blank_line_after_only.
     satisfies every premise and cleans to "a\nb" (obtained from the theorem, not by running). *)
 Example C13_single_block_example : _ := block_example.
 
-(** NOT proved: the same for documents with SEVERAL blocks (every surviving non-blank input line
-    appears byte for byte on a line of its own, in order; a + b - [a > 0 and b > 0] blank lines
-    remain around each block that is separated from the others by a non-blank line).  It is the
-    composition of the seam lemma over all seams with C02/C03 (Properties/C02.v); that composition is
-    validated by the oracle of this check on generated block documents. *)
+(** Document level, SEVERAL blocks (Proofs/MultiBlock.v):  s = T0 B1 T1 B2 T2 ... Bn Tn  with every
+    [Bi] the rendering of a ready default-strategy element (children arbitrary, deleted wholesale)
+    whose opening tag is preceded on its line only by blanks and whose closing tag is followed by a
+    line break (the first block may start the file, the last may end it), the [Ti] plain text, and
+    consecutive blocks separated by a surviving non-blank line ([chain_ok]).  The seam formatter is
+    LOCAL ([format_block_local]): at a seam it depends only on the stretch between the nearest
+    non-blank lines, so the seam ranges are disjoint, nothing is merged, and the output is the fold of
+    the two-text join [J] - defined on the texts alone by the four cases of the seam lemma. *)
+Theorem C13_several_blocks_document :
+  forall cfg ds de T0 bs,
+    let f := mb_ast T0 bs in
+    good_delims ds de -> good_doc ds de (doc_of f) -> bodies_ok (doc_of f) ->
+    Forall ast_ok f -> no_unwrap f -> Forall (blk_ready cfg) bs ->
+    chain_ok T0 (mb_texts bs) ->
+    let Ts := mb_texts bs in
+    let s' := mb_rest T0 bs in
+    let ps := seams (length T0) Ts in
+    let rs := cuts (length T0) T0 Ts in
+    fb_all s' ps = Ok rs /\ separated_from 0 rs /\
+    format_ranges s' (map (fun p => (p, @None nat)) ps) = Ok rs /\
+    clean cfg ds de (T0 ++ mb_render ds de bs) = Ok (delete_ranges rs s') /\
+    delete_ranges rs s' = fold_left J Ts T0.
+Proof. exact clean_multi_block. Qed.
+Print Assumptions C13_several_blocks_document.
+
+(** (a) Every non-blank line of the texts is a line of the output, byte for byte, in order, and the
+    output has no other non-blank line ([nbl] = the lines that are not blank). *)
+Theorem C13_surviving_lines_are_kept_verbatim :
+  forall cfg ds de T0 bs,
+    let f := mb_ast T0 bs in
+    good_delims ds de -> good_doc ds de (doc_of f) -> bodies_ok (doc_of f) ->
+    Forall ast_ok f -> no_unwrap f -> Forall (blk_ready cfg) bs ->
+    chain_ok T0 (mb_texts bs) ->
+    exists out, clean cfg ds de (T0 ++ mb_render ds de bs) = Ok out /\
+      out = fold_left J (mb_texts bs) T0 /\
+      nbl out = nbl T0 ++ concat (map nbl (mb_texts bs)).
+Proof. exact clean_multi_block_lines. Qed.
+Print Assumptions C13_surviving_lines_are_kept_verbatim.
+
+(** (b) The blank-line count at one seam, for any a and b: with b blank lines [BA] after the last
+    non-blank line [la] in front of the block and a blank lines [BZ] before the first non-blank
+    line [lz] behind it, a + b - [a > 0 and b > 0] blank lines remain between la and lz, and the
+    indentation residue is gone. *)
+Theorem C13_blank_line_count :
+  forall A0 ind Zt LA la BA BZ lz LZ,
+    blanks ind ->
+    MultiBlock.lines A0 = LA ++ [la] ++ BA -> has_nonblank la -> all_blank_lines BA ->
+    MultiBlock.lines Zt = BZ ++ [lz] ++ LZ -> has_nonblank lz -> all_blank_lines BZ ->
+    exists M, MultiBlock.lines (J (A0 ++ NL :: ind) (NL :: Zt)) = LA ++ [la] ++ M ++ [lz] ++ LZ /\
+      all_blank_lines M /\
+      length M = length BZ + length BA -
+                 (if (0 <? length BZ) && (0 <? length BA) then 1 else 0).
+Proof. exact J_blank_count. Qed.
+Print Assumptions C13_blank_line_count.
+
+(** No residue: when every text starts and ends with a code line the output is the input with the
+    blocks' lines removed and nothing else. *)
+Theorem C13_several_blocks_leave_no_residue :
+  forall cfg ds de C0 ind0 bs mid Cn,
+    let T0 := C0 ++ NL :: ind0 in
+    let f := mb_ast T0 bs in
+    good_delims ds de -> good_doc ds de (doc_of f) -> bodies_ok (doc_of f) ->
+    Forall ast_ok f -> no_unwrap f -> Forall (blk_ready cfg) bs ->
+    blanks ind0 -> last_code C0 -> mb_texts bs = nr_texts mid Cn -> nr_ok mid -> first_code Cn ->
+    clean cfg ds de (T0 ++ mb_render ds de bs) = Ok (C0 ++ nr_out mid Cn).
+Proof. exact clean_multi_block_no_residue. Qed.
+Print Assumptions C13_several_blocks_leave_no_residue.
+
+(** The separation hypothesis is necessary: "a\n" B "\n" B "\nb" (two blocks with nothing between them)
+    cleans to "a\n\nb" - each seam takes the other's residue line for a blank neighbour - a blank line
+    that is no input line.  The property excludes this case. *)
+Example C13_unseparated_blocks : _ := mbx_unseparated.
+
+(** Non-vacuity: three blocks (one at the start of the file, blank lines around the second, the
+    second and third separated by one code line): premises, output by the theorem and by running. *)
+Example C13_several_blocks_example : _ := mbx_clean.
+
+(** NOT proved at document level: blocks inside pending elements / tags inside the texts between the
+    blocks (covered by the seam lemma and C02/C03, validated by the oracle of this check on generated
+    block documents). *)
 
 (** Non-vacuity: "x\n  \ny" (block removed between x and y, residue "  "): the whole residue line goes;
     "  \ny" at the start of the file: the residue and the line break go (KF1 repaired; it was (2, 3)). *)
